@@ -23,6 +23,14 @@ type messageSetReader struct {
 	lengthRemain int
 
 	decompressed *bytes.Buffer
+
+	// Set when readMessage went through a batch that log compaction left
+	// without records: emptyBatchLastOffset is the last offset it covers.
+	emptyBatch           bool
+	emptyBatchLastOffset int64
+	// True while the current header is the one of such an empty batch and
+	// readMessage has not looked at it yet (it must not be read over).
+	emptyHeader bool
 }
 
 type readerStack struct {
@@ -128,6 +136,16 @@ func (r *messageSetReader) readMessage(min int64, key readBytesFunc, val readByt
 	}
 	if err = r.readHeader(); err != nil {
 		return
+	}
+	for r.header.magic == 2 && r.header.v2.count == 0 {
+		// Log compaction can retain a batch with no records in it, only its
+		// offset range is meaningful. Remember where it ends so the caller
+		// can move past it, then look at the next batch.
+		r.emptyBatch, r.emptyBatchLastOffset = true, r.header.firstOffset+int64(r.header.v2.lastOffsetDelta)
+		r.emptyHeader = false
+		if err = r.readHeader(); err != nil {
+			return
+		}
 	}
 	switch r.header.magic {
 	case 0, 1:
@@ -338,6 +356,14 @@ func (r *messageSetReader) readMessageV2(_ int64, key readBytesFunc, val readByt
 	return
 }
 
+// skippedEmptyBatch reports the last offset of the most recent empty batch that
+// readMessage went through since the previous call, if any.
+func (r *messageSetReader) skippedEmptyBatch() (lastOffset int64, ok bool) {
+	lastOffset, ok = r.emptyBatchLastOffset, r.emptyBatch
+	r.emptyBatch = false
+	return
+}
+
 func (r *messageSetReader) discardBytes() (err error) {
 	r.remain, err = discardBytes(r.reader, r.remain)
 	return
@@ -404,7 +430,7 @@ func (r *messageSetReader) runFunc(rbFunc readBytesFunc) (err error) {
 }
 
 func (r *messageSetReader) readHeader() (err error) {
-	if r.count > 0 {
+	if r.count > 0 || r.emptyHeader {
 		// currently reading a set of messages, no need to read a header until they are exhausted.
 		return
 	}
@@ -480,6 +506,7 @@ func (r *messageSetReader) readHeader() (err error) {
 			return
 		}
 		r.count = int(r.header.v2.count)
+		r.emptyHeader = r.count == 0
 		// Subtracts the header bytes from the length
 		r.lengthRemain = int(r.header.length) - 49
 		if r.debug {
